@@ -29,6 +29,7 @@ inductive Err
   | invalidFilter       -- `RuntimeError("invalid filter type")`
   | cannotSaveFiltered  -- `RuntimeError("cannot save a filtered policy")`
   | roleDefinition      -- `RuntimeError("grouping policy elements do not meet role definition")`
+  | invalidPath         -- `RuntimeError("invalid file path, file path cannot be empty")`: the policy file is missing
   deriving DecidableEq, Repr, Inhabited
 
 abbrev Rule := List Str
@@ -245,11 +246,11 @@ def buildLinks : Store → List Link × Option Err
 def clearPG (m : Store) : Store :=
   m.map fun e => if e.sec == some 'p' || e.sec == some 'g' then { e with rules := [] } else e
 
-/-- `FilteredFileAdapter.load_policy(model)` (the flag is reset before the file is read) -/
+/-- `FilteredFileAdapter.load_policy(model)` (repaired, F26a: the flag is reset once the file has been read; an
+    exception while reading leaves it as it was) -/
 def adapterLoad (s : EState) (m : Store) : EState × Store × Option Err :=
-  let s := { s with filtered := false }
   let (m', e) := loadFile s.file m
-  (s, m', e)
+  ({ s with filtered := if e.isNone then false else s.filtered }, m', e)
 
 /-- `FilteredFileAdapter.load_filtered_policy(model, filter)`; inside the `try` every exception of the full load
     becomes "invalid filter type" -/
@@ -304,5 +305,38 @@ def step (s : EState) : Op → EState × Option Err
 def run (s : EState) : List Op → EState
   | [] => s
   | o :: os => run (step s o).1 os
+
+/-! ## the policy file may be missing for a while -/
+
+/-- the enforcer state plus whether the policy file exists (`os.path.isfile(self._file_path)`) -/
+structure FState where
+  e : EState
+  present : Bool := true
+  deriving DecidableEq, Repr, Inhabited
+
+inductive FOp
+  | unlink | restore | op (o : Op)
+  deriving DecidableEq, Repr, Inhabited
+
+/-- with the file missing both adapter loads raise at their first statement; `load_filtered_policy` of the enforcer
+    has already cleared the policy by then; a permitted save creates the file -/
+def stepF (s : FState) : FOp → FState × Option Err
+  | .unlink => ({ s with present := false }, none)
+  | .restore => ({ s with present := true }, none)
+  | .op o =>
+    if s.present then
+      let (e', r) := step s.e o
+      ({ s with e := e' }, r)
+    else match o with
+      | .load => (s, some .invalidPath)
+      | .loadFiltered _ => ({ s with e := { s.e with mem := clearPG s.e.mem } }, some .invalidPath)
+      | .loadIncrement _ => (s, some .invalidPath)
+      | .save | .adapterSave =>
+        let (e', r) := savePolicy s.e
+        ({ e := e', present := s.present || r.isNone }, r)
+
+def runF (s : FState) : List FOp → FState
+  | [] => s
+  | o :: os => runF (stepF s o).1 os
 
 end Casbin.Persist
